@@ -34,9 +34,9 @@ REQUIRED = ["reorgs_indexed", "restarts", "stops_mid_sync", "reorg_while_behind"
 def runs(tier, seed):
     if tier == "thorough":
         return [
-            Run("idx_hist", cases=400, params={"actions": 48}, timeout=3400, name="hist"),
-            Run("idx_hist", cases=48, flavour="tsan", shards=8, params={"actions": 36}, timeout=3400, name="hist_tsan"),
-            Run("muhash", cases=4000, shards=8, timeout=1800, name="muhash"),
+            Run("idx_hist", cases=240, params={"actions": 48}, timeout=3400, name="hist"),
+            Run("idx_hist", cases=24, flavour="tsan", shards=8, params={"actions": 36}, timeout=3400, name="hist_tsan"),
+            Run("muhash", cases=2000, shards=8, timeout=1800, name="muhash"),
         ]
     return [
         Run("idx_hist", cases=15, shards=15, params={"actions": 36}, timeout=2400, name="hist"),
